@@ -1,4 +1,4 @@
-"""Pairs of operations that yabgp runs in different threads, explored by vf/threads.py (engine E3).
+"""Pairs of operations that yabgp runs in different threads, explored by vf/threads.py (engine E5).
 
 spec of one body:
     ('construct', msg, asn4)                 Update.construct in a REST worker thread
